@@ -1,7 +1,7 @@
 (* C04 — Nothing is served past its lifetime; composed answers inherit the
    shortest part.  Property theorems over the model (Model.v), each proved in
    Proofs*.v; non-trivial instances are in Proofs_Examples.v. *)
-From Sdns Require Import Common.Base Gen.C04 C04.Model C04.Run C04.Proofs C04.Proofs_Store C04.Proofs_Tree.
+From Sdns Require Import Common.Base Gen.C04 C04.Model C04.Run C04.Proofs C04.Proofs_Store C04.Proofs_Tree C04.Proofs_Index.
 Open Scope Z_scope.
 
 (* In every history of client queries (hits on any route, alias chases through
@@ -28,6 +28,24 @@ Theorem proof_no_service_past_end :
     proof_serve soa pieces now = Some (t, ex) ->
     ex <= soa /\ (forall p, In p pieces -> ex <= p) /\ now < ex /\ 0 <= t /\ t * second <= ex - now.
 Proof. exact proof_serve_spec. Qed.
+
+(* ... and across any history of admissions into one zone's proof index and
+   lookups: a synthesised denial is inside the lifetime of every piece it is
+   built from, and each piece ends with the admission it arrived in (that
+   proof's SOA terms and SOA signature, the set's own terms, that proof's lease,
+   the 3 h cap) — whatever later admissions replaced in the zone *)
+Theorem proof_index_no_service_past_admission :
+  forall mx ops now needed t ex,
+    snd (pi_lookup (pi_run mx ops) now needed) = Some (t, ex) ->
+    now < ex /\ 0 <= t /\ t * second <= ex - now
+    /\ forall o, In o needed ->
+         exists p, In p (pi_pieces (pi_run mx ops)) /\ pp_owner p = o
+           /\ ex <= pp_expires p
+           /\ pp_now p < pp_expires p
+           /\ pp_expires p - pp_now p <= max_denial_proof_ttl
+           /\ (forall r c, In r (pp_common p ++ pp_set p) -> In c (prr_cands (pp_now p) r) -> pp_expires p - pp_now p <= c)
+           /\ (forall c, pp_cut p = Some c -> pp_expires p <= c).
+Proof. exact proof_index_no_service_past_admission_l. Qed.
 
 (* the TTL shown is the floor, in seconds, of the time remaining *)
 Theorem shown_ttl_le_remaining :
@@ -123,6 +141,7 @@ Proof. exact proof_expiry_no_floor. Qed.
 Print Assumptions no_service_past_end.
 Print Assumptions cut_no_service_past_end.
 Print Assumptions proof_no_service_past_end.
+Print Assumptions proof_index_no_service_past_admission.
 Print Assumptions shown_ttl_le_remaining.
 Print Assumptions shown_ttl_antitone.
 Print Assumptions history_ttl_antitone.
